@@ -199,6 +199,43 @@ def run_impl(ops, wd):
     return obs, leaks, samplers, kinds
 
 
+def parallel_consent_case(rnd, k):
+    """The parallel controller's sample() is a sample() too: without overwrite consent it leaves existing chain files (named with or
+    without their extension, HDF5 or NPY) exactly as they are, whatever it does instead (it refuses)."""
+    import hmclab
+    wd = common.tmpdir("c11p_")
+    out = []
+    try:
+        target = hmclab.Distributions.Normal(numpy.array([[0.5], [-0.25]]), numpy.array([[1.0], [2.0]]))
+        forms = [("p0.h5", "p0.h5"), ("p1", "p1.h5"), ("p2.npy", "p2.npy"), ("p3", "p3.h5")]
+        chosen = [[forms[0], forms[1]], [forms[1], forms[3]], [forms[2], forms[3]], [forms[3], forms[1]], [forms[0], forms[2]], [forms[1], forms[2]]][k % 6]
+        with contextlib.redirect_stdout(io.StringIO()), contextlib.redirect_stderr(io.StringIO()), numpy.errstate(all="ignore"):
+            for given, real in chosen:       # the files of an earlier study
+                hmclab.Samplers.RWMH(seed=3).sample(os.path.join(wd, given), target, proposals=4, stepsize=0.5, disable_progressbar=True)
+        ident2 = lambda real: tuple((os.stat(f).st_size, hashlib.sha256(open(f, "rb").read()).hexdigest()) if os.path.exists(f) else None
+                                    for f in ([os.path.join(wd, real)] + ([os.path.join(wd, real) + ".pkl"] if real.endswith(".npy") else [])))
+        before = [ident2(real) for _, real in chosen]
+        raised = None
+        with contextlib.redirect_stdout(io.StringIO()), contextlib.redirect_stderr(io.StringIO()), numpy.errstate(all="ignore"):
+            try:
+                ctrl = hmclab.Samplers.ParallelSampleSMP(seed=1)
+                kw = {} if k % 2 == 0 else {"overwrite_existing_files": False}
+                ctrl.sample([hmclab.Samplers.RWMH(seed=5), hmclab.Samplers.RWMH(seed=6)], [os.path.join(wd, g) for g, _ in chosen], [target, target],
+                            proposals=4, exchange=bool(k % 3 == 0), kwargs={"stepsize": 0.5, "disable_progressbar": True}, **kw)
+            except BaseException as e:  # noqa
+                raised = e
+        numpy.seterr(all="warn")
+        after = [ident2(real) for _, real in chosen]
+        for (given, real), b, a in zip(chosen, before, after):
+            if a != b:
+                out.append(("modified-by-parallel-sample", f"ParallelSampleSMP.sample without overwrite consent on existing chain files {[g for g, _ in chosen]}: {real} was "
+                            f"{'deleted' if all(x is None for x in a) else 'modified'} ({'no exception' if raised is None else type(raised).__name__})"))
+                break
+    finally:
+        shutil.rmtree(wd, ignore_errors=True)
+    return out
+
+
 def spec_oracle(ops, obs, leaks, wd, samplers, kinds):
     out = []
     for k, (op, (code, changed, before, after)) in enumerate(zip(ops, obs)):
@@ -246,8 +283,12 @@ def coq_case(ops, obs):
 
 def run(tier, seed):
     rnd = random.Random(seed * 7919 + 11)
+    pre_violations = []
+    for k in range(6 if tier == "quick" else 30):
+        for key, what in parallel_consent_case(rnd, k):
+            pre_violations.append(Violation(key, what, {"parallel_consent_case": k}))
     n = 45 if tier == "quick" else 600
-    violations, samples, seen, coq, metas = [], [], set(), [], []
+    violations, samples, seen, coq, metas = list(pre_violations), [], set(), [], []
     dist = {"ops": 0, "sample_valid": 0, "sample_fail_before": 0, "sample_fail_after": 0, "openw": 0, "object_ops": 0,
             "on_existing_path": 0, "refused": 0}
     stage_seen = set()
